@@ -251,21 +251,22 @@ def _to_py(val, kind):
 
 
 def replay_script(scen, values, label):
+    """stand-alone script: exit 1 iff the *reported* claim fails (or the reported exception type is raised)"""
     vals = ", ".join(f"{k}={v!r}" for k, v in values.items())
     consts = ", ".join(f"{k}={v!r}" for k, v in scen.consts.items())
     allv = ", ".join(x for x in (vals, consts) if x)
     return (
         "import sys, warnings\nwarnings.filterwarnings('ignore')\n"
         + CONCRETE_OPS_SRC + "\n" + scen.preamble + "\n" + scen.src + "\n"
-        + f"v = V({allv})\nO = ConcreteOps()\n"
+        + f"v = V({allv})\nO = ConcreteOps()\nLABEL = {label!r}\n"
         + "bad = []\n"
         + "try:\n    claims = run(v, O)\nexcept Exception as e:\n"
-        + "    print('scenario raised', type(e).__name__, e); sys.exit(1)\n"
+        + "    print('scenario raised', type(e).__name__, e)\n"
+        + "    sys.exit(1 if LABEL == 'unexpected ' + type(e).__name__ else 0)\n"
         + "for label, c in claims:\n    if not c: bad.append(label)\n"
         + f"print('inputs:', {allv!r})\n"
-        + "print('failing claims:', bad)\n"
-        + f"# solver counterexample was for claim {label!r}\n"
-        + "sys.exit(1 if bad else 0)\n"
+        + "print('failing claims:', bad, '; reported claim:', LABEL)\n"
+        + "sys.exit(1 if LABEL in bad else 0)\n"
     )
 
 
